@@ -144,6 +144,32 @@ Theorem C03_registration_oracle : forall n who sched, Forall (fun c => c < n)%na
 Proof. exact oracle_accepts. Qed.
 Print Assumptions C03_registration_oracle.
 
+(* A register call can RETURN BEFORE its counter is on the list: a second
+   goroutine finds c.next already set by the goroutine that claimed the counter
+   and has not linked it yet (C03_register_early_return: computed witness).
+   Before fix f518e0b the second goroutine's Add could then look the pointer up
+   with no file mapped and return, the opener's invalidateCounters walk -
+   started before the link - missed the counter, and the counter kept havePtr
+   with a nil pointer: its increments stayed in memory with the file open (found
+   by the multi-counter oracle scenarios of suite conc, thorough tier).  At
+   every instant a returned call's counter is on the list or claimed by exactly
+   one call that is still on its way to link it; that call now runs
+   c.invalidate() and c.refresh() after linking (program points RInv, RRef). *)
+Theorem C03_register_returned_means_listed_or_claimed : forall n who sched, Forall (fun c => c < n)%nat who ->
+  let '(s, ts) := rrun sched (rinit n who) in
+  forall t, In t ts -> rt_pc t = RDone ->
+  exists l, HeadChain s l /\
+    (In (rt_c t) l \/
+     exists j u, nth_error ts j = Some u /\ rt_c u = rt_c t /\ rt_wrote u = true /\
+       (rt_pc u = RHead \/ rt_pc u = RNext \/ rt_pc u = RLink \/ rt_pc u = RDbgFail)).
+Proof. exact returned_means_listed_or_claimed. Qed.
+Print Assumptions C03_register_returned_means_listed_or_claimed.
+Theorem C03_register_early_return :
+  let '(s, ts) := rrun [0; 0; 0; 0; 1; 1]%nat (rinit 1 [0; 0]%nat) in
+  exists t, nth_error ts 1 = Some t /\ rt_pc t = RDone /\ r_head s = PNil.
+Proof. exact early_return_before_link. Qed.
+Print Assumptions C03_register_early_return.
+
 (* REFUTED clause (known finding `use-after-unmap`): "no call faults" is false of
    the faithful model: a reader parked before its cell load while a changer
    stores a new mapping, invalidates, refreshes and closes the old mapping then
